@@ -46,12 +46,12 @@ func (f filter) Matches(series storage.Series) bool {
 		return true
 	}
 
-	for _, l := range series.Labels() {
-		m, ok := f.matcherSet[l.Name]
-		if !ok {
-			continue
-		}
-		if !m.Matches(l.Value) {
+	// Every matcher has to hold, also for a label the series does not have
+	// (an absent label has the empty value), and for each of several matchers
+	// on the same label name.
+	lbls := series.Labels()
+	for _, m := range f.matchers {
+		if !m.Matches(lbls.Get(m.Name)) {
 			return false
 		}
 	}
